@@ -41,7 +41,7 @@ META['C01'] = {'level': 'exploration',
                  'trusted base: CPython, z3 QF_LRA, fractions, pvm/exact.py',
                  'operands are constructed with the default simplification and snapshotted after construction; all '
                  'variables are free in the oracle query'],
- 'soft_s': {'quick': 200, 'thorough': 3000}}
+ 'soft_s': {'quick': 900, 'thorough': 3000}}
 
 META['C02'] = {'level': 'exploration',
  'rule': "cases = (dividend, divisor, additional_inputs, simplify, tactics_order): the repository's stored quotients "
@@ -66,7 +66,7 @@ META['C02'] = {'level': 'exploration',
                  "1e-4*(1+|c|); negative hypotheses get 1e-7 slack (the properties' numerical reading)",
                  'trusted base: CPython, z3 QF_LRA, fractions, pvm/exact.py',
                  'operands snapshotted after construction with default simplification'],
- 'soft_s': {'quick': 200, 'thorough': 3000}}
+ 'soft_s': {'quick': 900, 'thorough': 3000}}
 
 META['C03'] = {'level': 'exploration',
  'rule': 'cases = pairs of constraint lists (families: unrelated, weakenings, Farkas combinations, boundary, '
@@ -95,7 +95,7 @@ META['C03'] = {'level': 'exploration',
                  'trusted base: CPython, z3 QF_LRA, fractions, pvm/exact.py',
                  'thinly infeasible left sides (infeasible, but feasible after relaxing by 1e-3) are treated as '
                  'band'],
- 'soft_s': {'quick': 200, 'thorough': 3000}}
+ 'soft_s': {'quick': 900, 'thorough': 3000}}
 
 META['C04'] = {'level': 'exploration',
  'rule': 'cases = (term list, context, eliminated vars, mode, simplify, tactics_order); the complete two-variable '
@@ -123,7 +123,7 @@ META['C04'] = {'level': 'exploration',
                  'L1 verdict point is the return of the tactic dispatcher (_transform_term)'],
  'exhaustive': False,
  'exhaustive_note': 'thorough tier enumerates the two-variable grid completely (counter grid2_cases)',
- 'soft_s': {'quick': 200, 'thorough': 3000}}
+ 'soft_s': {'quick': 900, 'thorough': 3000}}
 
 RM = "runtime monitoring: "
 MANIFEST_TEXT["C01"] = {
